@@ -5,7 +5,8 @@
    Every theorem about `step` quantifies over: any agent (state type, policy, learn), any number of samplers, any
    loss sequence, any list of sessions with any number of batches each, and EVERY schedule sigma (a list of thread
    ids; a pick of a disabled thread is skipped).  The one hypothesis is that the agent's policy returns indices of
-   the action space (otherwise env.step raises inside the agent's thread). *)
+   the action space (otherwise env.step raises inside the agent's thread); the one hypothesis on the losses is
+   `reward_defined` (no improvement on a best loss of exactly 0, where get_reward divides by zero). *)
 From Coq Require Import List ZArith QArith Bool Arith.
 From BlackIt Require Import Model.RLProto Proofs.RLProtoP.
 Import ListNotations.
@@ -22,74 +23,83 @@ Section C10.
   Notation reach sigma := (run AS (step AS policy learn nsam halton loss) sigma (init AS sessions a0)).
   Notation reach_old sigma := (run AS (step_old AS policy learn nsam halton loss) sigma (init AS sessions a0)).
   Definition policy_valid := forall st : AS, fst (policy st) < nsam.
+  (* mab.py:46 divides by the reference best loss: a loss that improves on a running best (bm) of exactly 0 raises
+     ZeroDivisionError in the agent's thread.  The theorems hold for every loss sequence on which that never happens -
+     in particular for all non-negative losses and for all sequences whose running best is never exactly 0; outside the
+     hypothesis the clauses are false of the code (C10_zero_reference_*_refuted below, finding `zero-reference-loss`). *)
+  Definition reward_defined := forall k, reward_raises (bm loss k) (bm loss (S k)) = false.
+  Theorem C10_reward_defined_nonneg_losses : (forall k, 0 <= loss k)%Q -> reward_defined.
+  Proof. exact (nonneg_losses_reward_defined loss). Qed.
+  Theorem C10_reward_defined_nonzero_best : (forall k, ~ bm loss k == 0)%Q -> reward_defined.
+  Proof. exact (nonzero_best_reward_defined loss). Qed.
 
   (* Exactly one learn call per batch the agent chose, in order, for the sampler that actually ran: at the end of a
      complete run the (source batch, action) pairs of the learn calls are, position by position, the (batch, sampler)
      pairs of the batches run on the agent's choice; and the executed log holds every batch index n-1..0 once. *)
-  Theorem C10_learn_once_per_executed : policy_valid -> forall sigma, is_final AS (reach sigma) = true ->
+  Theorem C10_learn_once_per_executed : policy_valid -> reward_defined -> forall sigma, is_final AS (reach sigma) = true ->
     exch (executed (reach sigma)) = map lsrc (learned (reach sigma)) /\
     map (fun e => fst (fst e)) (executed (reach sigma)) = down (bidx (reach sigma)).
-  Proof. exact (fun H => T_learn_once_per_executed AS policy learn nsam halton loss H sessions a0). Qed.
+  Proof. exact (fun H R => T_learn_once_per_executed AS policy learn nsam halton loss H R sessions a0). Qed.
 
   (* The reward learnt for batch k+1 is get_reward(best loss after batches 0..k, best loss after batches 0..k+1):
      computed from that very batch's outcome against the reference loss of the batches before it. *)
-  Theorem C10_reward_from_own_batch : policy_valid -> forall sigma, is_final AS (reach sigma) = true ->
+  Theorem C10_reward_from_own_batch : policy_valid -> reward_defined -> forall sigma, is_final AS (reach sigma) = true ->
     forall a r src, In (a, r, src) (learned (reach sigma)) ->
     exists k, src = Some (S k) /\ S k < bidx (reach sigma) /\ r = fst (reward (bm loss k) (bm loss (S k))).
-  Proof. exact (fun H => T_reward_from_own_batch AS policy learn nsam halton loss H sessions a0). Qed.
+  Proof. exact (fun H R => T_reward_from_own_batch AS policy learn nsam halton loss H R sessions a0). Qed.
 
   (* At every moment of every run: whatever has been learnt is about a batch that ran, with the action that ran it
      (in particular never about the end marker: the source is never None). *)
-  Theorem C10_never_learns_unexecuted : policy_valid -> forall sigma a r src, In (a, r, src) (learned (reach sigma)) ->
+  Theorem C10_never_learns_unexecuted : policy_valid -> reward_defined -> forall sigma a r src, In (a, r, src) (learned (reach sigma)) ->
     exists b, src = Some b /\ In (b, a, true) (executed (reach sigma)).
-  Proof. exact (fun H => T_never_learns_unexecuted AS policy learn nsam halton loss H sessions a0). Qed.
+  Proof. exact (fun H R => T_never_learns_unexecuted AS policy learn nsam halton loss H R sessions a0). Qed.
 
   (* ... and the learn calls follow the agent-chosen batches in order, at most one batch behind. *)
-  Theorem C10_learned_follows_executed : policy_valid -> forall sigma,
+  Theorem C10_learned_follows_executed : policy_valid -> reward_defined -> forall sigma,
     exists pend, length pend <= 1 /\ exch (executed (reach sigma)) = pend ++ map lsrc (learned (reach sigma)).
-  Proof. exact (fun H => T_learned_in_order_always AS policy learn nsam halton loss H sessions a0). Qed.
+  Proof. exact (fun H R => T_learned_in_order_always AS policy learn nsam halton loss H R sessions a0). Qed.
 
   (* Whenever the calibration thread is outside a session (end_session has returned / start_session has not started
      the agent yet / all sessions done) both queues are empty and no agent thread exists. *)
-  Theorem C10_queues_empty_at_session_end : policy_valid -> forall sigma, between_sessions (mpc (reach sigma)) = true ->
+  Theorem C10_queues_empty_at_session_end : policy_valid -> reward_defined -> forall sigma, between_sessions (mpc (reach sigma)) = true ->
     aq (reach sigma) = [] /\ oq (reach sigma) = [] /\ apc (reach sigma) = AIdle.
-  Proof. exact (fun H => T_queues_empty_at_session_end AS policy learn nsam halton loss H sessions a0). Qed.
+  Proof. exact (fun H R => T_queues_empty_at_session_end AS policy learn nsam halton loss H R sessions a0). Qed.
 
   (* Every reachable state that is not final has an enabled thread. *)
-  Theorem C10_deadlock_free : policy_valid -> forall sigma, is_final AS (reach sigma) = false ->
+  Theorem C10_deadlock_free : policy_valid -> reward_defined -> forall sigma, is_final AS (reach sigma) = false ->
     enabled AS (step AS policy learn nsam halton loss) (reach sigma) M = true \/
     enabled AS (step AS policy learn nsam halton loss) (reach sigma) A = true.
-  Proof. exact (fun H => T_deadlock_free AS policy learn nsam halton loss H sessions a0). Qed.
+  Proof. exact (fun H R => T_deadlock_free AS policy learn nsam halton loss H R sessions a0). Qed.
 
   (* No run has more than mu(init) steps, and every run can be completed. *)
-  Theorem C10_sessions_terminate : policy_valid -> forall sigma,
+  Theorem C10_sessions_terminate : policy_valid -> reward_defined -> forall sigma,
     all_enabled AS policy learn nsam halton loss sigma (init AS sessions a0) -> length sigma <= mu AS (init AS sessions a0).
-  Proof. exact (fun H => T_sessions_terminate AS policy learn nsam halton loss H sessions a0). Qed.
-  Theorem C10_can_always_complete : policy_valid -> forall sigma, exists sigma', is_final AS (reach (sigma ++ sigma')) = true.
-  Proof. exact (fun H => T_can_always_complete AS policy learn nsam halton loss H sessions a0). Qed.
+  Proof. exact (fun H R => T_sessions_terminate AS policy learn nsam halton loss H R sessions a0). Qed.
+  Theorem C10_can_always_complete : policy_valid -> reward_defined -> forall sigma, exists sigma', is_final AS (reach (sigma ++ sigma')) = true.
+  Proof. exact (fun H R => T_can_always_complete AS policy learn nsam halton loss H R sessions a0). Qed.
 
   (* All complete schedules end with the same executed log (hence the same sequence of samplers), the same learn log,
      the same agent state and reference losses. *)
-  Theorem C10_choice_schedule_independent : policy_valid -> forall sigma sigma',
+  Theorem C10_choice_schedule_independent : policy_valid -> reward_defined -> forall sigma sigma',
     is_final AS (reach sigma) = true -> is_final AS (reach sigma') = true ->
     executed (reach sigma) = executed (reach sigma') /\ learned (reach sigma) = learned (reach sigma') /\
     ast (reach sigma) = ast (reach sigma') /\ cbl (reach sigma) = cbl (reach sigma') /\ best (reach sigma) = best (reach sigma').
-  Proof. exact (fun H => T_choice_schedule_independent AS policy learn nsam halton loss H sessions a0). Qed.
+  Proof. exact (fun H R => T_choice_schedule_independent AS policy learn nsam halton loss H R sessions a0). Qed.
 
   (* ... namely those computed by the sequential specification (choose; run the batch; learn its reward; choose again;
      drop the choice pending at the end of the session). *)
-  Theorem C10_refines_sequential_spec : policy_valid -> forall sigma, is_final AS (reach sigma) = true ->
+  Theorem C10_refines_sequential_spec : policy_valid -> reward_defined -> forall sigma, is_final AS (reach sigma) = true ->
     sq_of AS (reach sigma) = seq_sessions AS policy learn halton loss sessions (sq0 AS a0).
-  Proof. exact (fun H => T_sequential_refinement AS policy learn nsam halton loss H sessions a0). Qed.
+  Proof. exact (fun H R => T_sequential_refinement AS policy learn nsam halton loss H R sessions a0). Qed.
 
   (* No thread ever dies of an exception, end_session's get_nowait always finds exactly the one pending action,
      and the queues never hold more than one action / one outcome plus the marker. *)
-  Theorem C10_no_error_state : policy_valid -> forall sigma, mpc (reach sigma) <> MErr /\ apc (reach sigma) <> AErr.
-  Proof. exact (fun H => T_no_error_state AS policy learn nsam halton loss H sessions a0). Qed.
-  Theorem C10_drain_finds_one : policy_valid -> forall sigma, mpc (reach sigma) = MDrain -> exists a, aq (reach sigma) = [a].
-  Proof. exact (fun H => T_drain_finds_one AS policy learn nsam halton loss H sessions a0). Qed.
-  Theorem C10_queue_bounds : policy_valid -> forall sigma, length (aq (reach sigma)) <= 1 /\ length (oq (reach sigma)) <= 2.
-  Proof. exact (fun H => T_queue_bounds AS policy learn nsam halton loss H sessions a0). Qed.
+  Theorem C10_no_error_state : policy_valid -> reward_defined -> forall sigma, mpc (reach sigma) <> MErr /\ apc (reach sigma) <> AErr.
+  Proof. exact (fun H R => T_no_error_state AS policy learn nsam halton loss H R sessions a0). Qed.
+  Theorem C10_drain_finds_one : policy_valid -> reward_defined -> forall sigma, mpc (reach sigma) = MDrain -> exists a, aq (reach sigma) = [a].
+  Proof. exact (fun H R => T_drain_finds_one AS policy learn nsam halton loss H R sessions a0). Qed.
+  Theorem C10_queue_bounds : policy_valid -> reward_defined -> forall sigma, length (aq (reach sigma)) <= 1 /\ length (oq (reach sigma)) <= 2.
+  Proof. exact (fun H R => T_queue_bounds AS policy learn nsam halton loss H R sessions a0). Qed.
 
   (* ---- what holds under BOTH protocols for every schedule (no hypothesis on the agent) *)
   (* the k-th action taken from the action queue is the k-th action put on it *)
@@ -101,6 +111,8 @@ Section C10.
                                 | exact (valid_every_schedule_old AS policy learn nsam halton loss H sessions a0 sigma)]. Qed.
 End C10.
 
+Print Assumptions C10_reward_defined_nonneg_losses.
+Print Assumptions C10_reward_defined_nonzero_best.
 Print Assumptions C10_learn_once_per_executed.
 Print Assumptions C10_reward_from_own_batch.
 Print Assumptions C10_never_learns_unexecuted.
@@ -116,6 +128,25 @@ Print Assumptions C10_drain_finds_one.
 Print Assumptions C10_queue_bounds.
 Print Assumptions C10_fifo_consumption_partial.
 Print Assumptions C10_only_valid_indices_partial.
+
+(* ---- the repaired protocol outside `reward_defined` (losses 1, 0, -1, -2; 2 samplers; scripted agent): the agent's thread
+   dies of the division by zero.  One session of 4 batches: the calibration thread blocks for ever on the action queue
+   (not final, no thread enabled).  One session of 3 batches: the session ends, but the end marker stays on the outcome
+   queue and the last batch the agent chose is never learnt.  Replayed on the implementation by the check
+   (known finding `zero-reference-loss`). *)
+Theorem C10_zero_reference_deadlock_refuted : exists sigma,
+  let s := z_run [4] sigma in
+  is_final cagent s = false /\ mask cagent z_new s = 0 /\ mpc s = MGet /\ apc s = AErr /\ cbl s = Some 0%Q /\ best s = Some (-1)%Q.
+Proof. exists (alt_sched 40). exact zero_reference_deadlock. Qed.
+Print Assumptions C10_zero_reference_deadlock_refuted.
+Theorem C10_zero_reference_leftover_refuted : exists sigma,
+  let s := z_run [3] sigma in
+  is_final cagent s = true /\ oq s = [None] /\ length (exch (executed s)) = 2 /\ length (learned s) = 1.
+Proof. exists (alt_sched 40). exact zero_reference_leftover. Qed.
+Print Assumptions C10_zero_reference_leftover_refuted.
+Theorem C10_zero_reference_outside_hypothesis : reward_raises (bm (lossl z_losses) 1) (bm (lossl z_losses) 2) = true.
+Proof. exact zero_reference_not_defined. Qed.
+Print Assumptions C10_zero_reference_outside_hypothesis.
 
 (* ---- the protocol before the repair: the clauses are false (explicit schedules, replayed on the implementation by
    fixes.d/C10-demo.py), and what does hold on a bounded domain.  Instance: 2 samplers, bootstrap index 1, scripted
